@@ -95,49 +95,76 @@ theorem CodeAt.whole (code : List Instr) : CodeAt code 0 code := ⟨[], [], by s
 
 /-! ### running code fragments
 
-`Runs env code frag P vs`: wherever `frag` is placed in `code`, started with the pc at its first instruction and a
-loop memory satisfying `P`, the VM reaches the end of the fragment having pushed `vs` (top first) and changed
-nothing else. -/
+`Runs env code frag c l vs`: wherever `frag` is placed in `code`, started with the pc at its first instruction and a
+loop memory that holds the loop variables of `l` (`MemInv c l`), the VM reaches the end of the fragment having
+pushed `vs` (top first); the stack below is untouched and so are the memory slots of the enclosing loops
+(slots below `4 * depth`); slots of deeper loops and the iterator table may have changed. -/
 
-def Runs (env : Env) (code : List Instr) (frag : List Instr) (P : List Int → Prop) (vs : List Int) : Prop :=
-  ∀ pc s, CodeAt code pc frag → s.pc = pc → P s.mem →
-    Steps env code s { s with pc := pc + frag.length, stack := vs ++ s.stack }
+/-- `m'` agrees with `m` on the slots below `lo` -/
+def Agree (lo : Nat) (m' m : List Int) : Prop := (∀ k, k < lo → getM m' k = getM m k) ∧ m'.length = m.length
 
-theorem Runs.nil (env : Env) (code : List Instr) (P : List Int → Prop) : Runs env code [] P [] := by
-  intro pc s _ hpc _
-  have : ({ s with pc := pc + ([] : List Instr).length, stack := [] ++ s.stack } : St) = s := by
-    cases s; simp_all
-  rw [this]; exact Steps.refl _ _ _
+theorem Agree.refl (lo : Nat) (m : List Int) : Agree lo m m := ⟨fun _ _ => rfl, rfl⟩
 
-theorem Runs.seq {env : Env} {code f1 f2 : List Instr} {P : List Int → Prop} {v1 v2 : List Int}
-    (h1 : Runs env code f1 P v1) (h2 : Runs env code f2 P v2) : Runs env code (f1 ++ f2) P (v2 ++ v1) := by
-  intro pc s hc hpc hP
-  have s1 := h1 pc s hc.left hpc hP
-  have s2 := h2 (pc + f1.length) { s with pc := pc + f1.length, stack := v1 ++ s.stack } hc.right rfl hP
+theorem Agree.trans {lo : Nat} {a b c : List Int} (h1 : Agree lo a b) (h2 : Agree lo b c) : Agree lo a c :=
+  ⟨fun k hk => (h1.1 k hk).trans (h2.1 k hk), h1.2.trans h2.2⟩
+
+theorem Agree.mono {lo lo' : Nat} {a b : List Int} (h : Agree lo a b) (hle : lo' ≤ lo) : Agree lo' a b :=
+  ⟨fun k hk => h.1 k (by omega), h.2⟩
+
+theorem MemInv.stable {c : Ctx} {l : LEnv} {m m' : List Int} (h : MemInv c l m)
+    (ha : Agree (4 * c.vars.length) m' m) : MemInv c l m' := by
+  refine ⟨h.1, ?_, ?_⟩
+  · intro k hk
+    have hlt : k < c.vars.length := by
+      apply Decidable.byContradiction
+      intro hn
+      exact hk (by simp [List.getD_eq_getElem?_getD, List.getElem?_eq_none (by omega : c.vars.length ≤ k)])
+    rw [ha.1 (4 * k + 3) (by omega)]
+    exact h.2.1 k hk
+  · intro n hn
+    obtain ⟨slot, h1, h2, h3⟩ := h.2.2 n hn
+    exact ⟨slot, h1, h2, by rw [ha.1 slot h2]; exact h3⟩
+
+def Runs (env : Env) (code : List Instr) (frag : List Instr) (c : Ctx) (l : LEnv) (vs : List Int) : Prop :=
+  ∀ pc st mem its, CodeAt code pc frag → MemInv c l mem → mem.length = 20 →
+    ∃ mem' its', Steps env code ⟨pc, st, mem, its⟩ ⟨pc + frag.length, vs ++ st, mem', its'⟩ ∧
+      Agree (4 * c.vars.length) mem' mem
+
+theorem Runs.nil (env : Env) (code : List Instr) (c : Ctx) (l : LEnv) : Runs env code [] c l [] := by
+  intro pc st mem its _ _ _
+  exact ⟨mem, its, by simpa using Steps.refl env code _, Agree.refl _ _⟩
+
+theorem Runs.seq {env : Env} {code f1 f2 : List Instr} {c : Ctx} {l : LEnv} {v1 v2 : List Int}
+    (h1 : Runs env code f1 c l v1) (h2 : Runs env code f2 c l v2) : Runs env code (f1 ++ f2) c l (v2 ++ v1) := by
+  intro pc st mem its hc hP hlen
+  obtain ⟨m1, i1, s1, a1⟩ := h1 pc st mem its hc.left hP hlen
+  obtain ⟨m2, i2, s2, a2⟩ := h2 (pc + f1.length) (v1 ++ st) m1 i1 hc.right (hP.stable a1) (a1.2.trans hlen)
+  refine ⟨m2, i2, ?_, a2.trans a1⟩
   have := Steps.trans s1 s2
   simpa [Nat.add_assoc] using this
 
-/-- an instruction that only pushes a word determined by the loop memory -/
-theorem Runs.push1 {env : Env} {code : List Instr} {P : List Int → Prop} (i : Instr) (v : Int)
-    (h : ∀ s, P s.mem → step env i s = some { s with pc := s.pc + 1, stack := v :: s.stack }) :
-    Runs env code [i] P [v] := by
-  intro pc s hc hpc hP
-  have hi : code[s.pc]? = some i := by rw [hpc]; exact hc.head
-  have := Steps.one hi (h s hP)
-  simpa [hpc] using this
+theorem Runs.congr {env : Env} {code f f' : List Instr} {c : Ctx} {l : LEnv} {vs : List Int}
+    (h : f = f') (hr : Runs env code f c l vs) : Runs env code f' c l vs := h ▸ hr
 
-/-- an instruction that replaces the `n` top words produced by `f` by one word -/
-theorem Runs.op {env : Env} {code f : List Instr} {P : List Int → Prop} (i : Instr) (args : List Int) (r : Int)
-    (hf : Runs env code f P args)
-    (h : ∀ s : St, step env i { s with stack := args ++ s.stack } =
-        some { s with pc := s.pc + 1, stack := r :: s.stack }) :
-    Runs env code (f ++ [i]) P [r] := by
-  intro pc s hc hpc hP
-  have s1 := hf pc s hc.left hpc hP
-  have hi : code[pc + f.length]? = some i := hc.right.head
-  have h2 := h { s with pc := pc + f.length }
-  have s2 : Steps env code { s with pc := pc + f.length, stack := args ++ s.stack }
-      { s with pc := pc + f.length + 1, stack := r :: s.stack } := Steps.one (by simpa using hi) (by simpa using h2)
+theorem Runs.val1 {env : Env} {code f : List Instr} {c : Ctx} {l : LEnv} {r r' : Int}
+    (h : r = r') (hr : Runs env code f c l [r]) : Runs env code f c l [r'] := h ▸ hr
+
+/-- an instruction that only pushes a word determined by the loop memory -/
+theorem Runs.push1 {env : Env} {code : List Instr} {c : Ctx} {l : LEnv} (i : Instr) (v : Int)
+    (h : ∀ pc st mem its, MemInv c l mem → step env i ⟨pc, st, mem, its⟩ = some ⟨pc + 1, v :: st, mem, its⟩) :
+    Runs env code [i] c l [v] := by
+  intro pc st mem its hc hP _
+  exact ⟨mem, its, Steps.one (by simpa using hc.head) (h pc st mem its hP), Agree.refl _ _⟩
+
+/-- an instruction that replaces the words produced by `f` by one word -/
+theorem Runs.op {env : Env} {code f : List Instr} {c : Ctx} {l : LEnv} (i : Instr) (args : List Int) (r : Int)
+    (hf : Runs env code f c l args)
+    (h : ∀ pc st mem its, step env i ⟨pc, args ++ st, mem, its⟩ = some ⟨pc + 1, r :: st, mem, its⟩) :
+    Runs env code (f ++ [i]) c l [r] := by
+  intro pc st mem its hc hP hlen
+  obtain ⟨m1, i1, s1, a1⟩ := hf pc st mem its hc.left hP hlen
+  refine ⟨m1, i1, ?_, a1⟩
+  have s2 := Steps.one (s := ⟨pc + f.length, args ++ st, m1, i1⟩) (by simpa using hc.right.head) (h _ st m1 i1)
   have := Steps.trans s1 s2
   simpa [Nat.add_assoc] using this
 
